@@ -4,6 +4,7 @@ package handshake
 //symgo:param NCH quick=6 thorough=9
 //symgo:param NSH quick=6 thorough=9
 //symgo:param NHV quick=1 thorough=2
+//symgo:outside ClientHello inputs whose declared cipher_suites length exceeds the remaining input by more than 4 bytes (decodeCipherSuiteIDs allocates count entries before checking; the engine cannot enumerate 32768 allocation sizes; such inputs take the same buffer-too-small exit as the covered ones)
 
 import (
 	"time"
@@ -76,40 +77,42 @@ func zzRandomEq(r *Random, wire []byte) bool {
 func zzClientHelloDecode() {
 	n := zzsymChoice("len", 40+zzsymParam("NCH"))
 	data := zzsymBytes("d", n)
-	m := &MessageClientHello{}
-	err := m.Unmarshal(data)
-
-	// reference walk over the declared lengths
+	// Reference walk over the four length-prefixed vectors that precede the extensions. The value of
+	// each length field is split into concrete cases (0..room exactly, or "larger than what is left"):
+	// a case split that covers every value of the field (except the stated cipher_suites bound) and
+	// keeps all offsets concrete.
+	names := []string{"sid", "cookie", "suites", "compr"}
+	widths := []int{1, 1, 2, 1}
+	var fOff, fLen [4]int
 	ok := true
 	off := 34
-	sidOff, sidLen, ckOff, ckLen, csOff, csLen, cmOff, cmLen := 0, 0, 0, 0, 0, 0, 0, 0
-	if n < off+1 {
-		ok = false
+	for i := 0; i < 4 && ok; i++ {
+		w := widths[i]
+		if off+w > n {
+			ok = false // the length field itself is cut off
+			break
+		}
+		declared := int(data[off])
+		if w == 2 {
+			declared = int(data[off])<<8 | int(data[off+1])
+		}
+		room := n - off - w
+		c := zzsymChoice(names[i], room+2)
+		if c <= room {
+			zzsymAssume(declared == c)
+			fOff[i], fLen[i] = off+w, c
+			off += w + c
+		} else {
+			zzsymAssume(declared > room)
+			if w == 2 {
+				zzsymAssume(declared <= room+4) // bound, see //symgo:outside
+			}
+			ok = false
+		}
 	}
-	if ok {
-		sidLen = int(data[off])
-		sidOff = off + 1
-		off = sidOff + sidLen
-		ok = off+1 <= n
-	}
-	if ok {
-		ckLen = int(data[off])
-		ckOff = off + 1
-		off = ckOff + ckLen
-		ok = off+2 <= n
-	}
-	if ok {
-		csLen = int(data[off])<<8 | int(data[off+1])
-		csOff = off + 2
-		off = csOff + csLen
-		ok = off+1 <= n
-	}
-	if ok {
-		cmLen = int(data[off])
-		cmOff = off + 1
-		off = cmOff + cmLen
-		ok = off <= n
-	}
+	sidOff, sidLen, ckOff, ckLen, csOff, csLen, cmOff, cmLen := fOff[0], fLen[0], fOff[1], fLen[1], fOff[2], fLen[2], fOff[3], fLen[3]
+	m := &MessageClientHello{}
+	err := m.Unmarshal(data)
 	var typs []uint16
 	var offs, lens []int
 	if ok {
@@ -322,7 +325,8 @@ func zzServerHelloDecode() {
 // ServerHello round trip from values: any version, random (not the HRR marker), cipher suite, session
 // id of 0..NHV bytes, 0..1 extension without payload codec: RFC layout (pion always writes the
 // extension block), Unmarshal gives the same value, every strict prefix is rejected except the one
-// that ends right before an empty extension block (RFC 5246 allows the block to be absent).
+// that ends right before the extension block (RFC 5246 allows the block to be absent, so that prefix
+// is a complete extension-less ServerHello).
 //
 //symgo:entry covers=sh_rt
 func zzServerHelloRoundTrip() {
@@ -344,7 +348,7 @@ func zzServerHelloRoundTrip() {
 	want = append(want, byte(len(v.SessionID)))
 	want = append(want, v.SessionID...)
 	want = append(want, byte(suite>>8), byte(suite), 0)
-	noBlockEnd := -1
+	noBlockEnd := len(want) // a message ending here is the complete extension-less ServerHello of RFC 5246
 	var ext extension.Raw
 	if zzsymChoice("ext", 2) == 1 {
 		ext = extension.Raw{Type: extension.Type(zzsymU16("xtype")), Data: zzsymBytes("xdata", zzsymChoice("xlen", nv+1))}
@@ -353,7 +357,6 @@ func zzServerHelloRoundTrip() {
 		want = append(want, 0, byte(4+len(ext.Data)), byte(ext.Type>>8), byte(ext.Type), 0, byte(len(ext.Data)))
 		want = append(want, ext.Data...)
 	} else {
-		noBlockEnd = len(want)
 		want = append(want, 0, 0)
 	}
 	raw, err := v.Marshal()
